@@ -295,6 +295,27 @@ func init() {
 			}
 			c.Count("numeral", nm.text)
 		}
+		// attribute numbers: the recorded number is the declared one, or the declaration is rejected - never a wrapped value
+		for _, on := range []struct {
+			text string
+			want []int
+		}{{"1", []int{1}}, {"26.9.1", []int{26, 9, 1}}, {"9223372036854775807", []int{9223372036854775807}}, {"9223372036854775808", nil},
+			{"99999999999999999999", nil}, {"18446744073709551617", nil}, {"1.99999999999999999999", nil}, {"241.18446744073709551616.3", nil}} {
+			text := "ATTRIBUTE A " + on.text + " string\n"
+			d, err := (&dictionary.Parser{Opener: &memOpener{files: map[string]memEntry{"d": {"d", text}}, limit: 4}}).ParseFile("d")
+			got := "rejected"
+			if err == nil {
+				got = fmt.Sprint([]int(d.Attributes[0].OID))
+			}
+			want := "rejected"
+			if on.want != nil {
+				want = fmt.Sprint(on.want)
+			}
+			if got != want {
+				c.Fail("spec", "Parser.ParseFile", "attribute-number", text, got, want, "the returned Dictionary lists the declared numbers; a number that cannot be represented is rejected, not wrapped")
+			}
+			c.Count("attribute-number", on.text)
+		}
 		// what is recorded for an accepted declaration, decided by the statement itself
 		{
 			text := "VENDOR V4 9 format=4,0\nVENDOR V2 10 format=2,1\nVENDOR V1 11 format=1,2\nVENDOR V0 12\n" +
